@@ -9,6 +9,8 @@ Open Scope R_scope.
 
 Lemma rsum_sub n f g : rsum n (fun k => f k - g k) = rsum n f - rsum n g.
 Proof. induction n; cbn [rsum]; [lra| rewrite IHn; lra]. Qed.
+Lemma rsum_const_EM n c : rsum n (fun _ => c) = INR n * c.
+Proof. induction n. cbn [rsum]. simpl. lra. cbn [rsum]. rewrite IHn, S_INR. lra. Qed.
 Lemma rsum_pos n f : (0<n)%nat -> (forall k, (k<n)%nat -> 0 < f k) -> 0 < rsum n f.
 Proof. intros Hn H. induction n. lia. cbn [rsum]. destruct n. cbn [rsum]. specialize (H 0%nat ltac:(lia)). lra.
   assert (0 < rsum (S n) f) by (apply IHn; [lia|intros; apply H; lia]). specialize (H (S n) ltac:(lia)). lra. Qed.
@@ -173,3 +175,17 @@ Proof. intros HG.
   apply (fit_monotone_guarded Theta Gamma E M (fun th => loglik N K sal (J th)) Guard); auto.
   intros th Hth. apply em_ascent; auto. Qed.
 End Monotone.
+
+(* ---- full-covariance Gaussian / cACG matrix M-step, in the eigenbasis of Sigma^-1 S ----
+   For a class with mass c > 0 and weighted scatter S (positive definite), the class part of Q as a function of the
+   covariance Sigma is  -c/2 (ln det Sigma + tr(Sigma^-1 S)).  With lam_1..lam_D > 0 the eigenvalues of Sigma^-1 S
+   (contract of the eigen-decomposition: det(Sigma^-1 S) = prod lam_i, tr(Sigma^-1 S) = sum lam_i) this is
+   -c/2 (ln det S - sum ln lam_i + sum lam_i), and Sigma = S (all lam_i = 1) maximises it: *)
+Theorem spectral_logdet_trace (D : nat) (lam : nat -> R) :
+  (forall i, (i < D)%nat -> 0 < lam i) -> rsum D (fun i => ln (lam i)) <= rsum D lam - INR D.
+Proof. intros H. rewrite <- (Rmult_1_r (INR D)). rewrite <- (rsum_const_EM D 1) .
+  rewrite <- rsum_sub. apply rsum_le; intros i Hi. apply ln_le_sub1. apply H; exact Hi. Qed.
+Theorem full_covariance_mstep_spectral (D : nat) (c ldS : R) (lam : nat -> R) :
+  0 <= c -> (forall i, (i < D)%nat -> 0 < lam i) ->
+  - c / 2 * (ldS - rsum D (fun i => ln (lam i)) + rsum D lam) <= - c / 2 * (ldS + INR D).
+Proof. intros Hc H. pose proof (spectral_logdet_trace D lam H). nra. Qed.
